@@ -12,6 +12,45 @@ WORK = os.path.join(VERIF, "work")
 JARS = "/opt/veriftools/tla/tla2tools.jar:/opt/veriftools/tla/CommunityModules-deps.jar"
 
 
+# TLC writes states to disk when a run is large, and its string serialisation keeps one byte per character:
+# a non-ASCII character in a TLA+ string value comes back mangled (U+00E9 -> U+FFE9) in runs that spill, and only
+# in those.  Strings therefore travel to TLC in an injective ASCII encoding and are decoded when records are read;
+# the specification only ever compares them.
+_MARK = "~u~"
+
+
+def _enc_str(s):
+    if s.isascii() and not s.startswith(_MARK):
+        return s
+    return _MARK + s.encode("unicode_escape").decode("ascii")
+
+
+def _dec_str(s):
+    if s.startswith(_MARK):
+        return s[len(_MARK):].encode("ascii").decode("unicode_escape")
+    return s
+
+
+def enc_json(x):
+    if isinstance(x, str):
+        return _enc_str(x)
+    if isinstance(x, list):
+        return [enc_json(a) for a in x]
+    if isinstance(x, dict):
+        return {_enc_str(k): enc_json(v) for k, v in x.items()}
+    return x
+
+
+def dec_json(x):
+    if isinstance(x, str):
+        return _dec_str(x)
+    if isinstance(x, list):
+        return [dec_json(a) for a in x]
+    if isinstance(x, dict):
+        return {_dec_str(k): dec_json(v) for k, v in x.items()}
+    return x
+
+
 class TLCError(Exception):
     """machinery failure: TLC crashed, a spec-level invariant failed, output unparsable"""
 
@@ -71,7 +110,7 @@ def run(module, cfg, env=None, workers=16, tag=None, xss="256m", heap="8g", time
         for line in p.stdout:
             if line.startswith('"@@'):
                 try:
-                    rec = json.loads(json.loads(line)[2:])
+                    rec = dec_json(json.loads(json.loads(line)[2:]))
                 except Exception as ex:
                     raise TLCError("undecodable record line: %r (%s)" % (line[:200], ex))
                 if on_record:
